@@ -139,6 +139,7 @@ func run(seed int64, n int, dir string, _ []string) {
 	obstacles(o, bin, scratch, mk)
 	vanishing(o, bin, scratch)
 	usageErrors(o, bin, scratch, mk)
+	endingPlacement(o, bin, scratch, mk)
 
 	preload := func(p prog, d string) {
 		if strings.HasPrefix(p.kind, "preload-") {
